@@ -106,15 +106,17 @@ namespace awkward {
       }
 
       int64_t lentags = tags.length();
+      // one running count per content (not per item: a first item with tag 1 needs two)
+      int64_t numcontents = (int64_t)contents_.size();
 
       if (form_.get()->index() == Index::Form::i32) {
-        Index32 current(lentags);
+        Index32 current(numcontents);
         Index32 outindex(lentags);
         struct Error err = kernel::UnionArray_regular_index<int8_t, int32_t>(
           kernel::lib::cpu,   // DERIVE
           outindex.data(),
           current.data(),
-          lentags,
+          numcontents,
           tags.data(),
           lentags);
         util::handle_error(err, "UnionArray", nullptr);
@@ -127,13 +129,13 @@ namespace awkward {
 
       }
       else if (form_.get()->index() == Index::Form::u32) {
-        IndexU32 current(lentags);
+        IndexU32 current(numcontents);
         IndexU32 outindex(lentags);
         struct Error err = kernel::UnionArray_regular_index<int8_t, uint32_t>(
           kernel::lib::cpu,   // DERIVE
           outindex.data(),
           current.data(),
-          lentags,
+          numcontents,
           tags.data(),
           lentags);
         util::handle_error(err, "UnionArray", nullptr);
@@ -145,13 +147,13 @@ namespace awkward {
                                contents).simplify_uniontype(false, false);
       }
       else if (form_.get()->index() == Index::Form::i64) {
-        Index64 current(lentags);
+        Index64 current(numcontents);
         Index64 outindex(lentags);
         struct Error err = kernel::UnionArray_regular_index<int8_t, int64_t>(
           kernel::lib::cpu,   // DERIVE
           outindex.data(),
           current.data(),
-          lentags,
+          numcontents,
           tags.data(),
           lentags);
         util::handle_error(err, "UnionArray", nullptr);
